@@ -56,6 +56,7 @@ def dispatchC18 : List Str → Option (List Str)
     else if cmd == "c18.cut".toList then
       match args with
       | [s] => let segs := cutLits s; some ("ok".toList :: segMasked segs 0 :: segStrings segs)
+      | [f, s] => let p := prepLine (boolOf f) s; some ("ok".toList :: p.masked :: p.strings)
       | _ => some ["bad-request".toList]
     else if cmd == "c18.reinsert".toList then
       match args with
@@ -68,6 +69,10 @@ def dispatchC18 : List Str → Option (List Str)
       match args with
       | [s] =>
         match declVars s with
+        | .ok vs => some ("ok".toList :: (vs.map varFields).flatten)
+        | .error e => some ["err".toList, rerrName18 e]
+      | [f, s] =>
+        match declVarsOpt (boolOf f) s with
         | .ok vs => some ("ok".toList :: (vs.map varFields).flatten)
         | .error e => some ["err".toList, rerrName18 e]
       | _ => some ["bad-request".toList]
